@@ -27,6 +27,12 @@ def N(s):
     return ''.join(out)
 
 
+def N2(s):
+    """second accepted reading of 'lower-casing': plain str.lower() on both sides (the parsers lower-case the entity TEXT again,
+    which expands U+0130 in the text while the offsets stay exact; the slice is still cut from the original query)"""
+    return ''.join(FW.get(c, c) for c in s).lower()
+
+
 CULTURES = ['en-us', 'es-es', 'es-mx', 'fr-fr', 'pt-br', 'it-it', 'de-de', 'nl-nl', 'zh-cn', 'ja-jp']
 NOISE_EXTRA = ['12', '3.5', '1,000', '0', '-7', '99%', '$', '€', '@', '#', '.', ',', '-', '/', '(', ')', ':', '１２', '３．５', '：', '％', '（', '）', '、',
                '中', '三', '十', '年', '月', '日', '点', ' ', '👍', 'ß', 'K', 'kB', 'K', 'é', '5pm', '10:30', '2019-02-30', '25:00',
@@ -62,7 +68,7 @@ def oracle_c01(ctx, mt, cu, q, ref, res, seq):
             sl = q[e.start:e.end + 1]
             if not sl.strip():
                 mech = 'blank-slice'
-            elif N(sl).strip() != N(e.text or '').strip():
+            elif N(sl).strip() != N(e.text or '').strip() and N2(sl).strip() != N2(e.text or '').strip():
                 if N(e.text or '').strip() in N(q):
                     mech = 'text-elsewhere-in-query'
                 else:
